@@ -970,6 +970,12 @@ assign_float_mpq(T& to, const mpq_class& from, Rounding_Dir dir) {
   }
   else {
     --exponent;
+    if (exponent < Float<T>::Binary::EXPONENT_MIN) {
+      // The number is denormalized and its exponent is one less than
+      // estimated: one more mantissa bit has to be dropped.
+      inexact = (inexact || mpz_odd_p(mantissa));
+      mpz_tdiv_q_2exp(mantissa, mantissa, 1);
+    }
   }
   if (exponent > Float<T>::Binary::EXPONENT_MAX) {
     mpz_clear(mantissa);
